@@ -203,6 +203,15 @@ func c16Invalidations() []invDev {
 	post("ext-key-invalid-utf8", "ext", "", "", func(r *reqSpec, req *signature.SignRequest, rs *envenc.RemoteSigner) {
 		req.ExtendedSignedAttributes = []signature.Attribute{attr("k\xff", false, "v")}
 	})
+	// the other texts of a request: a content type or a signing agent that is not valid UTF-8 cannot be carried by either format (JSON
+	// replaces the bytes silently: the envelope then says something else than the request; a CBOR text string with such bytes is
+	// refused when the envelope is read back)
+	post("content-type-invalid-utf8", "cty", "", "", func(r *reqSpec, req *signature.SignRequest, rs *envenc.RemoteSigner) {
+		req.Payload.ContentType = "application/vnd.x\xff+json"
+	})
+	post("signing-agent-invalid-utf8", "agent", "", "", func(r *reqSpec, req *signature.SignRequest, rs *envenc.RemoteSigner) {
+		req.SigningAgent = "agent/1.0 \xfe\xff"
+	})
 	post("ext-keys-invalid-utf8-colliding-after-replacement", "ext", "", "", func(r *reqSpec, req *signature.SignRequest, rs *envenc.RemoteSigner) {
 		req.ExtendedSignedAttributes = []signature.Attribute{attr("k\xff", false, "a"), attr("k\xfe", true, "b")}
 	})
@@ -571,7 +580,7 @@ func init() {
 		Assumptions: []string{"changes of one slot are never combined", "letter-case variants of header names as attribute keys are not judged (they are refused on verification since the F9 fix)"},
 		Init:        func(mc.Tier) (int, error) { envFix.init(); return len(envFix.chains), nil },
 		Scenarios:   c16Scenarios,
-		Alphabet:    func(mc.Tier) map[string]int { return map[string]int{"invalidating_changes": len(c16Invs), "slots": 7} },
+		Alphabet:    func(mc.Tier) map[string]int { return map[string]int{"invalidating_changes": len(c16Invs), "slots": 9} },
 		Guards: func(s *mc.Stats, t mc.Tier) []string {
 			var w []string
 			for _, o := range []string{"refused", "signed", "local-signer-constructed=true", "local-signer-constructed=false"} {
